@@ -3,7 +3,10 @@
   (src/grid/basegrid.py) for the classes `Grid`, `OneDGrid`, `AtomGrid`, `MolGrid`,
   `UniformGrid` / `Tensor1DGrids` (`PeriodicGrid` with lattice vectors: Model/Periodic.lean).
 
-  Hand-written; tied to the code by correspondence on random op histories
+  Hand-written.  Tie to the code: the setters, `get_localgrid` and `__getitem__` of basegrid.py are
+  translated statement by statement into `Gen/LocalGrid.lean` (harness/translate/localgrid.py) and
+  proved equal to the operations below (`Props/C10/Gen.lean`); the driver executes the generated
+  definitions, which are compared with the implementation on random op histories
   (harness/props/c10.py).  No Mathlib import: the `Float` instance is linked into the driver.
 
   * A point is the list of its coordinates (`[x]` for the 1-D array form `points.ndim == 1`).
